@@ -22,21 +22,41 @@ type rty struct {
 	s    int    // struct index
 }
 
-func (t rty) String() string {
+// canon is the canonical spelling of the type (its identity).
+func (t rty) canon() string {
 	switch t.k {
 	case "vec":
 		return fmt.Sprintf("vec%d<%s>", t.n, t.e)
 	case "mat":
 		return fmt.Sprintf("mat%dx%d<f32>", t.n, t.r)
 	case "arr":
-		return fmt.Sprintf("array<%s, %d>", t.elem, t.n)
+		return fmt.Sprintf("array<%s, %d>", t.elem.canon(), t.n)
 	case "struct":
 		return fmt.Sprintf("S%d", t.s)
 	}
 	return t.k
 }
 
-func (t rty) key() string { return t.String() }
+// curGen is the generator whose aliases String() may use (RandModule is not re-entrant: modules are generated one
+// after the other).
+var curGen *rgen
+
+// String spells the type as it is written into the program: its canonical spelling or, when the module declares an
+// alias for it, sometimes the alias (so that the same type is reached through the alias and directly).
+func (t rty) String() string {
+	if g := curGen; g != nil && len(g.aliases) > 0 && !g.noAlias {
+		if a, ok := g.aliases[t.canon()]; ok && g.chance(0.55) {
+			g.use("alias-use")
+			return a
+		}
+	}
+	if t.k == "arr" {
+		return fmt.Sprintf("array<%s, %d>", t.elem.String(), t.n)
+	}
+	return t.canon()
+}
+
+func (t rty) key() string { return t.canon() }
 
 func scalarTy(k string) rty  { return rty{k: k} }
 func vecTy(n int, e string) rty { return rty{k: "vec", n: n, e: e} }
@@ -79,6 +99,19 @@ type rgen struct {
 	ind      int
 	budget   int
 	features map[string]bool
+	aliases  map[string]string // canonical type spelling -> alias name
+	aliasTys []rty
+	noAlias  bool // inside module-scope initialisers (this front end rejects alias constructors there)
+	uvInterp string // interpolation of the uv varying ("" = default)
+	opts     RandOpts
+}
+
+// RandOpts steers RandModuleWith.
+type RandOpts struct {
+	Aliases  bool // declare type aliases (before and after use) and reach the aliased types through them and directly
+	Dual     bool // the fragment stage writes a dual-source pair (@blend_src)
+	AttrLast bool // with Dual: @blend_src / @interpolate / @invariant are written BEFORE @location / @builtin
+	Stages   []string
 }
 
 func (g *rgen) name(p string) string { g.nname++; return fmt.Sprintf("%s%d", p, g.nname) }
@@ -102,6 +135,12 @@ func (g *rgen) randScalar(numeric bool) rty {
 
 // randType draws a constructible value type.
 func (g *rgen) randType(depth int) rty {
+	if len(g.aliasTys) > 0 && g.chance(0.4) {
+		t := g.aliasTys[g.pick(len(g.aliasTys))]
+		if t.k != "arr" || depth > 0 {
+			return t
+		}
+	}
 	switch x := g.pick(10); {
 	case x < 4:
 		return g.randScalar(false)
@@ -1063,7 +1102,7 @@ func (g *rgen) entry(stage string) {
 		t := rty{k: "struct", s: -1}
 		_ = t
 		g.line("@vertex")
-		g.line("fn %s(@builtin(vertex_index) vi: u32, @location(0) pos: vec3<f32>, @location(1) uv: vec2<f32>, @builtin(instance_index) ii: u32) -> VOut {", n)
+		g.line("fn %s(@builtin(vertex_index) vi: u32, @location(0) pos: %s, @location(1) uv: %s, @builtin(instance_index) ii: u32) -> VOut {", n, vecTy(3, "f32"), vecTy(2, "f32"))
 		g.declare(rvar{name: "vi", ty: scalarTy("u32"), expr: "vi"})
 		g.declare(rvar{name: "pos", ty: vecTy(3, "f32"), expr: "pos"})
 		g.declare(rvar{name: "uv", ty: vecTy(2, "f32"), expr: "uv"})
@@ -1086,7 +1125,22 @@ func (g *rgen) entry(stage string) {
 	case "fragment":
 		g.line("@fragment")
 		rt := vecTy(4, "f32")
-		if g.chance(0.5) {
+		if g.opts.Dual {
+			// dual-source blending: two outputs share location 0 and differ in @blend_src
+			g.line("fn %s(in: VOut) -> FDual {", n)
+			g.declare(rvar{name: "in.pos", ty: vecTy(4, "f32"), expr: "in.pos"})
+			g.declare(rvar{name: "in.uv", ty: vecTy(2, "f32"), expr: "in.uv"})
+			g.declare(rvar{name: "in.id", ty: scalarTy("u32"), expr: "in.id"})
+			g.retExpr = "FDual(vec4<f32>(in.uv, 0.0, 1.0), vec4<f32>(0.5))"
+			g.push()
+			g.fragPrologue("in.uv")
+			g.body(3, 2+g.pick(4))
+			g.ind++
+			g.line("return FDual(%s, %s);", g.expr(vecTy(4, "f32"), 3), g.expr(vecTy(4, "f32"), 2))
+			g.ind--
+			g.pop()
+			g.use("dual-source")
+		} else if g.chance(0.5) {
 			g.line("fn %s(in: VOut, @builtin(front_facing) ff: bool) -> @location(0) vec4<f32> {", n)
 			g.declare(rvar{name: "in.pos", ty: vecTy(4, "f32"), expr: "in.pos"})
 			g.declare(rvar{name: "in.uv", ty: vecTy(2, "f32"), expr: "in.uv"})
@@ -1101,7 +1155,8 @@ func (g *rgen) entry(stage string) {
 			g.ind--
 			g.pop()
 		} else {
-			g.line("fn %s(@location(0) uv: vec2<f32>, @location(1) @interpolate(flat) id: u32, @builtin(position) fc: vec4<f32>) -> FOut {", n)
+			g.line("fn %s(%s uv: %s, %s id: u32, @builtin(position) fc: vec4<f32>) -> FOut {", n,
+				g.attrs("@location(0)", g.uvInterp), vecTy(2, "f32"), g.attrs("@location(1)", "@interpolate(flat)"))
 			g.declare(rvar{name: "uv", ty: vecTy(2, "f32"), expr: "uv"})
 			g.declare(rvar{name: "id", ty: scalarTy("u32"), expr: "id"})
 			g.declare(rvar{name: "fc", ty: vecTy(4, "f32"), expr: "fc"})
@@ -1139,9 +1194,51 @@ func (g *rgen) fragPrologue(uv string) {
 	g.use("texture-sample")
 }
 
+// attrs joins a main attribute (@location / @builtin) and a modifier (@interpolate / @blend_src / @invariant) in one of
+// the two orders; AttrLast forces the modifier first.
+func (g *rgen) attrs(main, mod string) string {
+	if mod == "" {
+		return main
+	}
+	if g.opts.AttrLast || g.chance(0.5) {
+		g.use("io-modifier-before-location")
+		return mod + " " + main
+	}
+	return main + " " + mod
+}
+
+// aliasPool: the types a module may alias (each is also spelled directly somewhere: fixed declarations such as Buf / Uni /
+// VOut use vec4<f32>, vec2<f32>, mat4x4<f32>, vec3<u32> ... directly, and String() alternates between the two spellings).
+var aliasPool = []rty{vecTy(3, "f32"), vecTy(2, "f32"), vecTy(4, "f32"), vecTy(2, "u32"), vecTy(3, "i32"), vecTy(3, "u32"), vecTy(4, "bool"),
+	{k: "mat", n: 2, r: 2}, {k: "mat", n: 3, r: 3}, {k: "mat", n: 4, r: 4}, {k: "mat", n: 2, r: 3}, scalarTy("f32"), scalarTy("i32"), scalarTy("u32")}
+
 // RandModule returns one random module and the set of features it uses.
 func RandModule(r *rand.Rand) (string, []string) {
-	g := &rgen{r: r, features: map[string]bool{}}
+	return RandModuleWith(r, RandOpts{Aliases: r.Float64() < 0.35, Dual: r.Float64() < 0.2})
+}
+
+// RandModuleWith returns one random module with the given options.
+func RandModuleWith(r *rand.Rand, opts RandOpts) (string, []string) {
+	g := &rgen{r: r, features: map[string]bool{}, opts: opts, aliases: map[string]string{}}
+	curGen = g
+	defer func() { curGen = nil }()
+	var aliasAfter []string
+	if opts.Aliases {
+		// aliases are declared before everything or after everything (declaration order is free at module scope)
+		for _, i := range r.Perm(len(aliasPool))[:2+g.pick(3)] {
+			t := aliasPool[i]
+			name := fmt.Sprintf("A%d_%s", i, strings.NewReplacer("<", "", ">", "", ",", "", " ", "").Replace(t.canon()))
+			decl := fmt.Sprintf("alias %s = %s;", name, t.canon())
+			if g.chance(0.5) {
+				g.line("%s", decl)
+			} else {
+				aliasAfter = append(aliasAfter, decl)
+			}
+			g.aliases[t.canon()] = name
+			g.aliasTys = append(g.aliasTys, t)
+		}
+		g.use("alias")
+	}
 	// structs
 	for i := 0; i < g.pick(3); i++ {
 		var fs []rty
@@ -1157,13 +1254,29 @@ func RandModule(r *rand.Rand) (string, []string) {
 		g.line("}")
 		g.structs = append(g.structs, rstruct{fields: fs})
 	}
-	g.line("struct VOut { @builtin(position) pos: vec4<f32>, @location(0) uv: vec2<f32>, @location(1) @interpolate(flat) id: u32 }")
+	// IO attributes are an unordered list in WGSL: modifiers are written before and after @location / @builtin
+	g.uvInterp = []string{"", "", "@interpolate(linear, centroid)", "@interpolate(perspective, sample)", "@interpolate(linear)", "@interpolate(perspective)"}[g.pick(6)]
+	inv := ""
+	if g.chance(0.3) {
+		inv = "@invariant"
+	}
+	g.line("struct VOut { %s pos: vec4<f32>, %s uv: %s, %s id: u32 }", g.attrs("@builtin(position)", inv),
+		g.attrs("@location(0)", g.uvInterp), vecTy(2, "f32"), g.attrs("@location(1)", "@interpolate(flat)"))
 	g.line("struct FOut { @location(0) color: vec4<f32>, @builtin(frag_depth) depth: f32 }")
+	if g.opts.Dual {
+		g.line("struct FDual { %s color: vec4<f32>, %s weight: %s }", g.attrs("@location(0)", "@blend_src(0)"), g.attrs("@location(0)", "@blend_src(1)"), vecTy(4, "f32"))
+	}
 	g.line("struct CIn { @builtin(global_invocation_id) gid: vec3<u32>, @builtin(workgroup_id) wid: vec3<u32> }")
 	stages := []string{"compute", "fragment", "vertex"}
 	want := map[string]bool{stages[g.pick(3)]: true}
 	if g.chance(0.4) {
 		want[stages[g.pick(3)]] = true
+	}
+	if opts.Dual {
+		want["fragment"] = true
+	}
+	for _, st := range opts.Stages {
+		want[st] = true
 	}
 	if g.chance(0.7) {
 		g.hasBuf = true
@@ -1244,15 +1357,26 @@ func RandModule(r *rand.Rand) (string, []string) {
 		g.hasWg = false
 		g.use("stage-" + s)
 	}
+	for _, d := range aliasAfter {
+		g.line("%s", d)
+		g.use("alias-declared-after-use")
+	}
 	var fs []string
 	for f := range g.features {
 		fs = append(fs, f)
 	}
-	return g.sb.String(), fs
+	src := g.sb.String()
+	if opts.Dual {
+		src = "enable dual_source_blending;\n" + src
+	}
+	return src, fs
 }
 
 // constExpr: a constant expression of type t (literals, constructors, earlier constants, simple arithmetic).
 func (g *rgen) constExpr(t rty) string {
+	saved := g.noAlias
+	g.noAlias = true
+	defer func() { g.noAlias = saved }()
 	switch t.k {
 	case "i32", "u32", "f32":
 		if g.chance(0.3) {
